@@ -66,6 +66,14 @@ pub fn build_dict<I: Int>(path: &str, k: usize, rc: bool) -> Result<BTreeMap<Str
     })
 }
 
+/// One sample given as a pair of sequence files (third column of a `-f` list): `SkaDict::new` with both names
+pub fn build_dict_pair<I: Int>(p1: &str, p2: &str, k: usize, rc: bool) -> Result<BTreeMap<String, u8>, String> {
+    catch(|| {
+        let d = SkaDict::<I>::new(k, 0, (p1, Some(&p2.to_string())), "s", rc, &no_qual(), None);
+        d.kmers().iter().map(|(km, b)| (key_of(*km, k), *b)).collect()
+    })
+}
+
 pub fn qual_filter(rule: QRule) -> QualFilter {
     match rule {
         QRule::None => QualFilter::NoFilter,
